@@ -79,6 +79,16 @@ def usePositions : List Tok → List Pos
   | .use _ p :: t => p :: usePositions t
   | _ :: t => usePositions t
 
+/-- What cl + gogen record TODAY for a declaration that introduces several names at once
+(`a, b := …`, `var a, b = …`: `DefineVarStart(expr.Pos(), names...)`, `NewVarDefs.New(Names[0].Pos(), …)`
+take ONE position for all names; range / for-phrase variables get no position at all, modelled as 0).
+Kept next to the faithful `run` (which gives every name its own position) because the two differ:
+see `C12_impl_group_position_witness` and known_findings.txt. -/
+def implDefsOfGroup (ids : List (Name × Pos)) : List (Pos × Pos) :=
+  match ids with
+  | [] => []
+  | (_, p0) :: _ => ids.map (fun e => (e.2, p0))
+
 /-- Well-nested event streams. -/
 inductive Balanced : List Tok → Prop where
   | nil : Balanced []
